@@ -6,8 +6,15 @@ package main
 //   random - seeded long histories in a larger universe with hostile arguments
 
 import (
+	"math"
 	"math/rand"
 	"reflect"
+
+	"github.com/emirpasic/gods/v2/maps/hashbidimap"
+	"github.com/emirpasic/gods/v2/maps/hashmap"
+	"github.com/emirpasic/gods/v2/maps/linkedhashmap"
+	"github.com/emirpasic/gods/v2/sets/hashset"
+	"github.com/emirpasic/gods/v2/sets/linkedhashset"
 )
 
 // Call is one public call with its arguments (uniform across families so that the logged
@@ -329,7 +336,64 @@ func init() {
 	kindsOf["clr"] = jsonKinds
 }
 
+// float elements with NaN in the hash containers: Clear must still leave an empty container
+func clearFloats(j *jobCtx) {
+	type fc struct {
+		kind string
+		mk   func() (add func(float64), clear func(), obs func() Ev)
+	}
+	cases := []fc{
+		{"hashset", func() (func(float64), func(), func() Ev) {
+			s := hashset.New[float64]()
+			return func(f float64) { s.Add(f) }, s.Clear, func() Ev { return Ev{"size": s.Size(), "empty": s.Empty(), "n": len(s.Values())} }
+		}},
+		{"linkedhashset", func() (func(float64), func(), func() Ev) {
+			s := linkedhashset.New[float64]()
+			return func(f float64) { s.Add(f) }, s.Clear, func() Ev { return Ev{"size": s.Size(), "empty": s.Empty(), "n": len(s.Values())} }
+		}},
+		{"hashmap", func() (func(float64), func(), func() Ev) {
+			m := hashmap.New[float64, int]()
+			return func(f float64) { m.Put(f, 1) }, m.Clear, func() Ev { return Ev{"size": m.Size(), "empty": m.Empty(), "n": len(m.Keys())} }
+		}},
+		{"linkedhashmap", func() (func(float64), func(), func() Ev) {
+			m := linkedhashmap.New[float64, int]()
+			return func(f float64) { m.Put(f, 1) }, m.Clear, func() Ev { return Ev{"size": m.Size(), "empty": m.Empty(), "n": len(m.Keys())} }
+		}},
+		{"hashbidimap", func() (func(float64), func(), func() Ev) {
+			m := hashbidimap.New[float64, float64]()
+			return func(f float64) { m.Put(f, f) }, m.Clear, func() Ev { return Ev{"size": m.Size(), "empty": m.Empty(), "n": len(m.Keys())} }
+		}},
+	}
+	for _, c := range cases {
+		if !j.want(c.kind) {
+			continue
+		}
+		for _, prior := range [][]float64{{math.NaN()}, {1.5, math.NaN(), math.NaN()}, {2.5}} {
+			addC, clearC, obsC := c.mk()
+			addF, _, obsF := c.mk()
+			for _, f := range prior {
+				addC(f)
+			}
+			e := Ev{"fam": "clr", "kind": c.kind, "cfg": Ev{"floats": true}, "op": "ClearThen", "rs": 1, "timeout": false, "obsbad": false, "plen": len(prior)}
+			steps := []Ev{}
+			ci := invoke(e, func() {
+				clearC()
+				steps = append(steps, Ev{"op": "Clear", "a": Call{}.A(), "rc": []any{}, "rf": []any{}, "oc": obsC(), "of": obsF()})
+				for _, f := range []float64{0.5, math.NaN(), 0.5} {
+					addC(f)
+					addF(f)
+					steps = append(steps, Ev{"op": "Add", "a": Call{}.A(), "rc": []any{}, "rf": []any{}, "oc": obsC(), "of": obsF()})
+				}
+			})
+			e["panic"], e["pmsg"], e["out"], e["steps"] = ci.Panic, ci.PMsg, ci.Out, steps
+			emit(e)
+			distinct["clrf|"+c.kind+"|"+itoa(len(prior))] = struct{}{}
+		}
+	}
+}
+
 func jobClear(j *jobCtx) {
+	clearFloats(j)
 	n, cl, cs := 60, 6, 2
 	if !j.quick() {
 		n, cl, cs = 600, 8, 4
